@@ -124,6 +124,9 @@ func (g *G) GenHook(id int, allowDiscard bool) *HookSpec {
 					continue
 				}
 				op := g.makeOp(FeHook, evType, k, g.P.MaxDepth, &st)
+				if strings.HasSuffix(op.M, "#obj") {
+					continue // nested Err would depend on the stack flag of whichever event runs the hook
+				}
 				g.hit(FeHook, k)
 				h.Ops = append(h.Ops, op)
 				h.Out = append(h.Out, op.Out...)
@@ -284,8 +287,11 @@ func (g *G) GenProgram(maxChain, maxEvents, maxOps int) *Program {
 				evctx = ev.EvCtx
 			}
 			for _, h := range hooks {
-				if h.Kind == 4 && !stdLevel(ev.Level) {
-					continue // LevelHook has no slot for custom levels
+				if h.Kind == 4 && (!stdLevel(ev.Level) || ex.Discarded) {
+					// LevelHook has no slot for custom levels; and once an earlier hook discarded the
+					// event the level handed to later hooks is Disabled (not regulated by C03), for
+					// which LevelHook has no slot either: the LevelHook ran, its inner recorder did not.
+					continue
 				}
 				hc := HookCall{ID: h.ID, Level: ev.Level, Msg: finalMsg}
 				if h.Kind == 2 {
